@@ -254,7 +254,11 @@ func extremeDoc(rng *rand.Rand) string {
 		ps = append(ps, ps[0])
 		return "[" + strings.Join(ps, ",") + "]"
 	}
-	switch rng.Intn(6) {
+	switch rng.Intn(7) {
+	case 6: // a Circle: centre and radius may be extreme too
+		rad := []string{"1", "100", "1e6", "1e999", "1e308", "5e-324", "0", "-1"}[rng.Intn(8)]
+		steps := []string{"", `,"steps":3`, `,"steps":64`, `,"steps":1e9`, `,"steps":-1`}[rng.Intn(5)]
+		return `{"type":"Feature","geometry":{"type":"Point","coordinates":` + pos() + `},"properties":{"type":"Circle","radius":` + rad + `,"radius_units":"m"` + steps + `}}`
 	case 0:
 		return `{"type":"Point","coordinates":` + pos() + `}`
 	case 1:
